@@ -491,3 +491,44 @@ def target_source_is_chosen_by_the_arguments(ctx):
     ctx.ob(not rebound, u, 'the file options are used as given', '' if not rebound else '%s rebound' % rebound)
     ctx.ob(n >= 10, u, 'calls screened: %d' % n)
     ctx.floor(3)
+
+
+# the command line's flags: name -> (how the text is parsed, value when the flag is absent)
+CLI_FLAGS = {
+    '--target-file': ('str', None), '--target-format': ('str', 'json'),
+    '--spec-file': ('str', None), '--spec-format': ('str', 'python'),
+    '--indent': ('int', 2),
+    '--scalar': (True, Ellipsis), '--debug': (True, Ellipsis), '--inspect': (True, Ellipsis),
+}
+
+
+@rule('C19.10')
+def flags_are_parsed_by_builtins(ctx):
+    """what reaches glom_cli for a flag is the builtin conversion of its text: --indent is an int
+    (json.dumps treats a str indent as the indent text itself: "-1" would prefix every line with
+    "-1"), the file / format flags are the text as typed, the switches are True when present; the
+    value of an absent flag is the documented default"""
+    from ..program import Builtin
+    from ..util import kwarg
+    p = ctx.program
+    u = ctx.unit('cli.get_command')
+    seen = {}
+    for c in calls_in(u):
+        if isinstance(c.func, ast.Attribute) and c.func.attr == 'add' and c.args and isinstance(c.args[0], ast.Constant) \
+                and isinstance(c.args[0].value, str) and c.args[0].value.startswith('--'):
+            seen[c.args[0].value] = c
+    ctx.require(set(CLI_FLAGS) <= set(seen), 'get_command: flag declarations not found (%s)' % sorted(set(CLI_FLAGS) - set(seen)))
+    for name, (parse, missing) in sorted(CLI_FLAGS.items()):
+        c = seen[name]
+        pa = kwarg(c, 'parse_as', 1)
+        ms = kwarg(c, 'missing')
+        if parse is True:
+            ok = isinstance(pa, ast.Constant) and pa.value is True and ms is None
+            want = 'a switch (parse_as=True)'
+        else:
+            ok = is_name(pa, parse) and isinstance(p.resolve_name(u, pa.id), Builtin) \
+                and isinstance(ms, ast.Constant) and ms.value == missing and type(ms.value) is type(missing)
+            want = 'parsed by builtin %s, %r when absent' % (parse, missing)
+        ctx.ob(ok, u, '%s is %s: %s' % (name, want, norm(c)[:80]),
+               '' if ok else 'the value handed to glom_cli is not %s' % want, node=c)
+    ctx.floor(8)
